@@ -377,7 +377,6 @@ def check_lex_batch(ctx, texts, label, stats):
 # ----------------------------------------------------------------------------------------------
 # protocol `full`
 
-REAL_STACKS = {"C05_STACK_MB": "8", "C05_RAYON_STACK_MB": "2"}   # CLI: parsing on the 8 MiB main thread, checking on rayon's 2 MiB workers
 
 
 def run_full(cases, timeout_ms=20000, workers=4, env_extra=None):
@@ -646,28 +645,34 @@ def run(ctx):
         check_full_batch(ctx, batch, f"generated seed={ctx.seed}", stats, timeout_ms=ctx.scale(10000, 120000))
         fdone += len(batch)
 
-    # 4. recursion depth: "no stack overflow on reasonably sized input"
-    #  (a) under the toolchain's real stacks (8 MiB parsing thread, 2 MiB rayon workers) every nesting form up to
-    #      depth 200 (quick) / 500 (thorough) must end `ok`;
-    #  (b) thorough: the design's bound (depth <= 2000, <= 64 KiB) under 64 MiB stacks;
-    #  (c) probe of the open finding C05-F4: depth 2000 under the real stacks aborts the process.
+    # 4. recursion depth: "no stack overflow on reasonably sized input".  Bound: every nesting form up to depth
+    #    2000 (<= 64 KiB) must end `ok` on the stacks the toolchain's entry point configures
+    #    (crates/samlang-cli/src/main.rs, read by extract/c05_cli_stacks.py on every run; since fix 7b017c6:
+    #    256 MiB main work thread, 64 MiB rayon/tokio workers).  If that configuration can no longer be read
+    #    the platform defaults (8 MiB / 2 MiB) are used - on which depth 2000 overflows (former finding C05-F4).
     ddone = 0
-    real_depth = ctx.scale(200, 500)
-    if not ctx.violations:
-        batch = [[("Main", gen_deep(rng.fork(), real_depth))] for _ in range(ctx.scale(64, 400))]
-        check_full_batch(ctx, batch, f"nesting depth <= {real_depth}, real stacks, seed={ctx.seed}", stats,
-                         timeout_ms=ctx.scale(20000, 120000), env_extra=REAL_STACKS)
-        ddone += len(batch)
-    if not ctx.quick and not ctx.violations:
-        batch = [[("Main", gen_deep(rng.fork(), 2000))] for _ in range(300)]
-        check_full_batch(ctx, batch, f"nesting depth <= 2000, 64 MiB stacks, seed={ctx.seed}", stats, timeout_ms=120000)
-        ddone += len(batch)
-    f4 = next((f for f in ctx.open_findings if f["id"] == "C05-F4"), None)
-    if f4 and not ctx.violations:
-        probes = [[("Main", wrap_expr("(" * 2000 + "1" + ")" * 2000))], [("Main", wrap_expr("a" + ".b" * 2000))]]
-        for a in run_full(probes, 60000, env_extra=REAL_STACKS):
-            if a.startswith("crash") and "overflowed its stack" in a:
-                ctx.known(f4)
+    rc, out = common.sh([sys.executable, os.path.join(common.VERIF, "extract", "c05_cli_stacks.py")], cwd=common.VERIF)
+    try:
+        cfg = json.loads(out.strip().split("\n")[-1]) if rc == 0 else None
+    except ValueError:
+        cfg = None
+    broken_cfg = None
+    if cfg is None:
+        broken_cfg = out
+        cfg = {"main_mb": 8, "worker_mb": 2}
+    cli_stacks = {"C05_STACK_MB": str(cfg["main_mb"]), "C05_RAYON_STACK_MB": str(cfg["worker_mb"])}
+    real_depth = 2000
+    n_before = len(ctx.violations)
+    batch = [[("Main", gen_deep(rng.fork(), real_depth))] for _ in range(ctx.scale(96, 2000))]
+    batch += [[("Main", wrap_expr("(" * 2000 + "1" + ")" * 2000))], [("Main", wrap_expr("a" + ".b" * 2000))],
+              [("Main", wrap_expr("1" + "+1" * 4000))], [("Main", wrap_expr("(" * 2000))]]
+    check_full_batch(ctx, batch, f"nesting depth <= {real_depth} on the entry point's stacks {cfg}, seed={ctx.seed}", stats,
+                     timeout_ms=ctx.scale(30000, 120000), env_extra=cli_stacks)
+    ddone += len(batch)
+    if broken_cfg is not None and len(ctx.violations) == n_before:
+        # tie broken and the search on the platform's default stacks found no failing input
+        ctx.violation("translator extract/c05_cli_stacks.py can no longer read the entry point's stack configuration: " + broken_cfg.strip()[-200:],
+                      {"broken": "extract/c05_cli_stacks.py (crates/samlang-cli/src/main.rs)", "log": broken_cfg[-1500:]}, no_input=True)
     fdone += ddone
 
     ctx.cov.update({
@@ -682,8 +687,8 @@ def run(ctx):
         "lex_generator_histogram": gen_hist, "full_generator_histogram": fhist,
         "token_kind_histogram": stats["kinds"], "syntax_error_histogram": stats["errs"],
         "full_answer_histogram": stats["full"], "full_outcome_histogram": stats["outcome"],
-        "limits": {"max_text_bytes_quick": 9000, "nesting_depth_real_stacks": real_depth, "real_stacks": "8 MiB parser thread / 2 MiB rayon workers (what samlang-cli uses)",
-                   "nesting_depth_64MiB_stacks": 0 if ctx.quick else 2000, "stack": "64 MiB (worker thread and rayon pool) for the fuzz streams",
+        "limits": {"max_text_bytes_quick": 9000, "nesting_depth": real_depth, "entry_point_stacks_mb": cfg,
+                   "stack": "64 MiB (worker thread and rayon pool) for the fuzz streams",
                    "watchdog_ms": ctx.scale(10000, 120000)},
         "partial_theorems": {},
         "pending": ["parser recursion depth (stack) is explored by the `full` oracle only",
@@ -693,7 +698,7 @@ def run(ctx):
     })
     ctx.assumptions += ["input is valid UTF-8 (&str); `Valid` in the theorems is weaker than UTF-8 well-formedness",
                         "texts < 4 GiB (u32 line/column counters)",
-                        "reasonably sized, as tested: nesting depth <= 200 (quick) / 500 (thorough) on the toolchain's own stacks (8 MiB / 2 MiB); depth <= 2000 only with 64 MiB stacks (thorough) - beyond that see open finding C05-F4"]
+                        "reasonably sized = nesting depth <= 2000 and <= 64 KiB, run on the stacks samlang-cli configures (256 MiB main work thread, 64 MiB rayon/tokio workers); library callers that run the parser/checker on smaller stacks overflow earlier (8 MiB / 2 MiB: ~1200 parentheses, ~660 chained accesses in a release build)"]
     return ctx.finish(res, trusted=common.TRUSTED_COMMON + [
         "translators extract/c05_keywords.py (anchored regexes over LogosToken / next_token / as_str) and extract/c05_parser_loops.py (anchors in parse_module / comma list / parse_block)",
         "parser loop skeletons Model/ParserLoops.lean are hand-written; only the consume-facts of their recovery arms are extracted (the skeleton shape is checked by the extractor's anchors and exercised by the hang oracle)",
@@ -715,7 +720,7 @@ def replay(ctx, path):
         return 1 if orc or canon_impl(impl[0]) != model[0] else 0
     if rp.get("protocol") == "full":
         mods = [tuple(m) for m in rp["modules"]]
-        r = run_full([mods])[0]
+        r = run_full([mods], env_extra=rp.get("env") or None)[0]
         print("modules", json.dumps(rp["modules"])[:2000]); print("impl   ", describe_full(r))
         return 0 if r.startswith("ok ") else 1
     print(json.dumps(data, indent=1)[:4000])
